@@ -85,8 +85,9 @@ func FindMethod(w *World, iface, name string) (*types.Func, error) {
 	if !ok {
 		return nil, fmt.Errorf("%s is not an interface", iface)
 	}
-	for i := 0; i < it.NumExplicitMethods(); i++ {
-		if m := it.ExplicitMethod(i); m.Name() == name {
+	// the whole method set: a method that comes in through an embedded interface is a method of this interface
+	for i := 0; i < it.NumMethods(); i++ {
+		if m := it.Method(i); m.Name() == name {
 			return m, nil
 		}
 	}
